@@ -24,8 +24,11 @@ RULE = ('all operation histories of length <= H over {G1 fresh-generator hierarc
 ASSUMPTIONS = ['normalisation: hex id suffixes renumbered by first appearance; contiguous runs of wire declarations sorted; nothing else',
                'a caller-owned createdStructures list: entries never disappear, and a request given the list answers like a fresh generator given a copy of it',
                'every shard runs in a freshly forked process (no transpilation has happened in the parent), so class-level tables start empty',
-               'canonical answers are taken from a pristine build at the start of each shard']
-BOUNDS = {'quick': 'H = 4, five circuits + circuit beh paired with a second circuit whose generation must be refused (four different transpiled classes, two instances of one of them with different constructor arguments, a parent-to-child forwarded Verilog parameter, combinational hierarchy with shared named modules, ModuloCounter, transpiled FSM + registers, a sub-block in its own named clock domain)',
+               'canonical answers: every one computed in a child process of its own, forked from the pristine main process before the '
+               'shard processes exist (what is generated for one request or circuit cannot colour the canonical answer of another)',
+               'circuit partbad: requests that include the part that cannot be transpiled are expected to be refused (G1, G1r, L on the top); '
+               'its G3 uses the generator that served the refused requests']
+BOUNDS = {'quick': 'H = 4, six circuits (one of them partly untranspilable, one with a memory that the simulation steps fill) + circuit beh paired with a second circuit whose generation must be refused (four different transpiled classes, two instances of one of them with different constructor arguments, a parent-to-child forwarded Verilog parameter, combinational hierarchy with shared named modules, ModuloCounter, transpiled FSM + registers, a sub-block in its own named clock domain)',
           'thorough': 'H = 5, same circuits'}
 
 OPS = ['G1', 'G1r', 'G2', 'G2f', 'G3', 'G4', 'Gx', 'L', 'P', 'S', 'M']
@@ -180,6 +183,12 @@ def build(kind):
         q, co, n = hw.wire('q', 3), hw.wire('co'), hw.wire('n')
         c.child = py4hw.ModuloCounter(hw, 'mc', 5, rs, inc, q, co)
         c.prim = py4hw.Not(hw, 'not_top', co, n)
+        # a memory that the simulation steps fill with non-zero words
+        ad = hw.wire('ad')
+        py4hw.Bit(hw, 'adbit', q, 0, ad)
+        five = hw.wire('five', 3)
+        py4hw.Constant(hw, 'five', 5, five)
+        py4hw.SynchronousMemory(hw, 'mem', ad, ad, inc, hw.wire('rd', 3), five)
         c.free = [rs, inc]
         c.edit = lambda: py4hw.Reg(hw, 'extra', q, hw.wire('extra', 3))
     elif kind == 'fsm':
@@ -214,6 +223,20 @@ def build(kind):
         c.prim = py4hw.Not(hw, 'not_top', s2, n)
         c.free = [a, load]
         c.edit = lambda: py4hw.Not(hw, 'extra', n, hw.wire('extra', 2))
+    elif kind == 'partbad':
+        # a circuit one part of which cannot be transpiled: requests that include that part are refused half-way (after the
+        # modules of the good part were emitted); requests for the good part alone must not notice
+        d, q, q2 = hw.wire('d', 2), hw.wire('q', 2), hw.wire('q2', 2)
+        c.child = Inner2(hw, 'good', d, q)
+        bad = Logic(hw, 'badpart')
+        bad.addIn('d', q)
+        bad.addOut('q', q2)
+        m = bad.wire('m', 2)
+        py4hw.Reg(bad, 'r0', q, m)
+        TernInCall(bad, 'bad', m, q2)
+        c.prim = py4hw.Not(hw, 'not_top', q2, hw.wire('n', 2))
+        c.free = [d]
+        c.edit = lambda: py4hw.Not(hw, 'extra', q, hw.wire('extra', 2))
     elif kind == 'refuse':
         # a block the transpiler must refuse (ternary inside a call): requests for this circuit raise
         a, r = hw.wire('a', 2), hw.wire('r', 2)
@@ -244,6 +267,18 @@ INPUTS = [(1, 1), (0, 1), (3, 2), (0, 0), (1, 0), (2, 3), (1, 1), (0, 1)]
 
 def request(c, op, c2):
     """execute one generation request, returns list of (request-name, normalised text)"""
+    if c.kind == 'partbad' and op != 'Gx':
+        try:
+            return _request(c, op, c2)
+        except Exception as e:
+            # requests that include the part that cannot be transpiled are expected to be refused; any other refusal is raised on
+            if op in ('G1', 'G1r') or (op == 'L' and (c.nl - 1) % 2 == 1):
+                return [('refused:' + op, 'REFUSED', 'REFUSED')]
+            raise
+    return _request(c, op, c2)
+
+
+def _request(c, op, c2):
     top = c.sys
     VG = py4hw.VerilogGenerator
     if op == 'G1':
@@ -268,7 +303,8 @@ def request(c, op, c2):
         k = c.ng3 % 2 if c.child2 is not None else 0
         c.ng3 += 1
         if k == 0:
-            return [('childhier', normalise(VG(top).getVerilogForHierarchy(c.child, noInstanceNumberInTopEntity=False)))]
+            g = c.gen if c.kind == 'partbad' else VG(top)      # partbad: the generator that served (and refused) earlier requests
+            return [('childhier', normalise(g.getVerilogForHierarchy(c.child, noInstanceNumberInTopEntity=False)))]
         return [('childhier2', normalise(VG(top).getVerilogForHierarchy(c.child2)))]
     if op == 'G4':
         return [('topmodule', normalise(c.gen.getVerilog(top, noInstanceNumber=True)))]
@@ -293,27 +329,62 @@ def request(c, op, c2):
     raise ValueError(op)
 
 
+def _in_child(fn, *args):
+    """run fn(*args) in a forked child of this (pristine) process and return its picklable result"""
+    import os
+    import pickle
+    r, w = os.pipe()
+    pid = os.fork()
+    if pid == 0:
+        try:
+            os.close(r)
+            try:
+                data = pickle.dumps(('ok', fn(*args)))
+            except BaseException as e:
+                data = pickle.dumps(('err', repr(e)))
+            with os.fdopen(w, 'wb') as fh:
+                fh.write(data)
+        finally:
+            os._exit(0)
+    os.close(w)
+    with os.fdopen(r, 'rb') as fh:
+        data = fh.read()
+    os.waitpid(pid, 0)
+    tag, val = pickle.loads(data)
+    if tag != 'ok':
+        raise core.HarnessError('canonical answers could not be computed in a child process: %s' % val)
+    return val
+
+
 def canonical(kind, kind2):
-    """canonical answers from pristine builds (one build per request)"""
+    """canonical answers: each circuit's own requests in a child process of their own, forked from the pristine shard
+    process - what was generated for one circuit cannot colour the canonical answer of the other"""
     out = {}
     for edited in (False, True):
         for op in ('G1', 'G2', 'G3', 'G4', 'P'):
-            c = build(kind)
-            if edited:
-                c.edit()
-                c.sys.getSimulator()
-            for k, t, *_ in request(c, op, None):
-                out[(k, edited)] = t
-            if (op == 'G3' and c.child2 is not None) or (op == 'G2' and c.alt is not None):
-                c = build(kind)
-                if edited:
-                    c.edit()
-                    c.sys.getSimulator()
-                c.ng3 = c.ng2 = 1
-                for k, t, *_ in request(c, op, None):
-                    out[(k, edited)] = t
+            for second in (0, 1):
+                out.update(_in_child(_canonical_one, kind, edited, op, second))     # every canonical answer in a process of its own
+    h2 = _in_child(_canonical_second, kind, kind2)
+    out[('hier2', False)] = out[('hier2', True)] = h2
+    return out
+
+
+def _canonical_second(kind, kind2):
     c2 = build(kind2)
-    out[('hier2', False)] = out[('hier2', True)] = request(build(kind), 'Gx', c2)[0][1]
+    return request(build(kind), 'Gx', c2)[0][1]
+
+
+def _canonical_one(kind, edited, op, second):
+    out = {}
+    c = build(kind)
+    if second and not ((op == 'G3' and c.child2 is not None) or (op == 'G2' and c.alt is not None)):
+        return out
+    if edited:
+        c.edit()
+        c.sys.getSimulator()
+    c.ng3 = c.ng2 = second
+    for k, t, *_ in request(c, op, None):
+        out[(k, edited)] = t
     return out
 
 
@@ -375,11 +446,24 @@ def first_diff(a, b):
     return {'line': min(len(la), len(lb)), 'canonical_lines': len(la), 'got_lines': len(lb)}
 
 
-KINDS = [('comb', 'seq'), ('seq', 'fsm'), ('fsm', 'comb'), ('multiclk', 'comb'), ('beh', 'fsm'), ('beh', 'refuse')]
+KINDS = [('comb', 'seq'), ('seq', 'fsm'), ('fsm', 'comb'), ('multiclk', 'comb'), ('beh', 'fsm'), ('beh', 'refuse'), ('partbad', 'comb')]
+
+
+_CANON = {}
+
+
+def canon_for(kind, kind2):
+    if (kind, kind2) not in _CANON:
+        _CANON[(kind, kind2)] = canonical(kind, kind2)
+    return _CANON[(kind, kind2)]
 
 
 def shards(tier):
     H = 5 if tier == 'thorough' else 4
+    # the canonical answers are computed here, in children of the (pristine) main process, and inherited by the shard
+    # processes that are forked afterwards
+    for kind, kind2 in KINDS:
+        canon_for(kind, kind2)
     out = []
     pre = 2 if H > 4 else 1   # thorough: 121 prefixes per circuit
     for kind, kind2 in KINDS:
@@ -399,7 +483,7 @@ def histories(d):
 def run_shard(d):
     res = {'states': 0, 'transitions': 0, 'traces_validated_against_impl': 0, 'evaluations': 0, 'programs': 0,
            'violations': [], 'samples': [], '_outcomes': set()}
-    canon = canonical(d['kind'], d['kind2'])
+    canon = canon_for(d['kind'], d['kind2'])
     nodes = set()
     for hist in histories(d):
         res['programs'] += 1
@@ -421,7 +505,7 @@ def run_shard(d):
 
 def replay(v):
     d = v['shard']
-    canon = canonical(d['kind'], d['kind2'])
+    canon = canon_for(d['kind'], d['kind2'])
     res = {'transitions': 0, 'evaluations': 0, '_outcomes': set()}
     det = run_history(d['kind'], d['kind2'], v['trace'], canon, res)
     return {'history': v['trace'], 'violates': det is not None, 'detail': det}
